@@ -72,8 +72,15 @@ def crash_oracle(hr: dsgen.HistoryRunner, tracker: VersionTracker, lower: dict,
     root, st = hr.root, hr.st
     scratch = tracker.scratch
     # 1. metadata files: old or new complete version, never partial
+    shape = collections.Counter()
     for dirpath, _, filenames in os.walk(root):
+        depth = os.path.relpath(dirpath, root).count(os.sep) + (
+            0 if dirpath == root else 1)
         for name in filenames:
+            kind = ("tmp" if name.startswith("update_") else
+                    name if name in META_NAMES else
+                    os.path.splitext(name)[1])
+            shape[(depth, kind)] += 1
             if name in META_NAMES:
                 full = os.path.join(dirpath, name)
                 rel = os.path.relpath(full, scratch)
@@ -85,6 +92,7 @@ def crash_oracle(hr: dsgen.HistoryRunner, tracker: VersionTracker, lower: dict,
                         f"{where}: {os.path.relpath(full, root)} is neither "
                         f"its old nor its new complete version",
                         key={"file": name})
+    stats.setdefault("_states", set()).add(hash(tuple(sorted(shape.items()))))
     if not os.path.exists(os.path.join(root, "dataset_info.json")):
         return
     # 2. the dataset opens; reachable shards exist, complete and match
@@ -417,6 +425,7 @@ def run_crash_case(case: dict) -> dict:
                     tfseam.__exit__()
     finally:
         shutil.rmtree(scratch, ignore_errors=True)
+    tree_states = stats.pop("_states", set())
     stats["sessions_completed"] += completed
     stats["scheduler_decisions"] += sc.steps
     stats["fs_effects"] += fs.n_effects
@@ -431,6 +440,7 @@ def run_crash_case(case: dict) -> dict:
     out.update({
         "digest": h.hexdigest(),
         "nontrivial": state["instants"] > 5,
+        "states": list(tree_states)[:2000],
         "stats": dict(stats), "probes": dict(probes),
         "faults": {"process_crash_points": stats["crash_instants_evaluated"],
                    "process_killed_and_restarted":
